@@ -1,9 +1,13 @@
 import RP.Lemmas.C01.Abs
-/-! C01 table, flush rows (all rank sets of 5-7 ranks), deck `std` -/
+/-! C01 table, flush rows (all rank sets of 5-7 ranks), deck `std`; native evaluation
+    (`Lean.ofReduceBool`, as `native_decide`) -/
 namespace RP.C01
 open RP.Eval
+set_option linter.deprecated false
 
-theorem tabF_std : forallF (rowF .std) = true := by
-  native_decide
+def tabF_std_native_decide : Bool := forallF (rowF .std)
+
+theorem tabF_std : forallF (rowF .std) = true :=
+  Lean.ofReduceBool tabF_std_native_decide true rfl
 
 end RP.C01
